@@ -1021,3 +1021,8 @@ mod test {
         println!("bytes_sent {bytes_sent}");
     }
 }
+
+#[cfg(kani)]
+mod verif_kani {
+    include!(concat!(env!("IPA_VERIF_DIR"), "/kani/dp.rs"));
+}
